@@ -291,6 +291,27 @@ class Errored(Contract):
                 ('cleared', And(is_none(new.after), is_none(new.match), is_none(new.match_index)))]
 
 
+def ghost_clock(module, g):
+    """concrete mode: the module's `time` is replaced by the ghost clock for the duration of the call"""
+    import importlib
+    mod = importlib.import_module(module)
+    real = mod.time
+
+    class Clock:
+        @staticmethod
+        def time():
+            return g['clk']
+
+        @staticmethod
+        def sleep(d):
+            g['clk'] = g['clk'] + d
+    mod.time = Clock
+
+    def undo():
+        mod.time = real
+    return undo
+
+
 class ExpectLoopInv(LoopSpec):
     """while True: read, search.  Invariant: buffer invariant, accounting (pending text is what was
     pending at entry plus what has been received since), and the deadline bookkeeping."""
@@ -339,9 +360,12 @@ class ExpectLoop(Contract):
         L = b.opt('lookback', lambda: b.int('lookback'))
         me = b.obj('self', 'pexpect.expect.Expecter', closed=True, spawn=sp, searcher=se,
                    searchwindowsize=W, lookback=L)
-        b.ghost('R', '')
+        b.ghost('R', b'' if (kind == 'b' and hasattr(b, 'source')) else '')
         b.ghost('clk', b.real('clk0'))
         return dict(self=me, timeout=b.opt('timeout', lambda: b.real('timeout')))
+
+    def instrument(self, args, g):
+        return ghost_clock('pexpect.expect', g)
 
     def requires(self, v):
         me = v.a.self
@@ -564,11 +588,8 @@ class SearcherStringSearch(Contract):
         buf = v.old.buffer
         F = lambda k: find_from(buf, lst.get(k)[1], ss_off(buf, v.old.freshlen, v.old.searchwindowsize, lst.get(k)[1]))
         n = lst.len
-        hit = getattr(v, 'label', None) == 'hit' or (getattr(v, 'label', None) is None and not (eq(v.result, -1) is True))
-        bk = getattr(v, 'bk', None)
-        if bk is None:
-            bk = v.g['bk']
         miss_f = eq(v.result, -1)
+        bk = witness(v, 'bk', n, lambda k: lst.get(k)[0] == v.result and F(k) == new.start)
         out = [
             # miss: no listed string occurs at or after its search start
             ('miss.none-found', forall(0, n, lambda k: Implies(miss_f, eq(F(k), -1)))),
@@ -694,10 +715,14 @@ class SearcherStringInit(Contract):
     def ensures(self, v):
         me = v.new.self
         P = getattr(v.old, self.param)
-        pos = getattr(v, 'pos', None)
-        if pos is None:
-            pos = v.g['pos']
-        return searcher_init_inv(me, P, getattr(me, self.field), P.len, pos, self.with_longest)
+        lst = getattr(me, self.field)
+        if getattr(v, 'concrete', False):
+            pos = WitnessArray(lst.len, lambda j, k: lst.get(k)[0] == j)
+        else:
+            pos = getattr(v, 'pos', None)
+            if pos is None:
+                pos = v.g['pos']
+        return searcher_init_inv(me, P, lst, P.len, pos, self.with_longest)
 
 
 SR = 'pexpect.expect.searcher_re'
@@ -788,10 +813,8 @@ class SearcherReSearch(Contract):
         ss = 0 if W is None else smax(0, length(buf) - W)
         F = lambda k: re_find(lst.get(k)[1], buf, ss)
         n = lst.len
-        bk = getattr(v, 'bk', None)
-        if bk is None:
-            bk = v.g['bk']
         miss_f = eq(v.result, -1)
+        bk = witness(v, 'bk', n, lambda k: lst.get(k)[0] == v.result and F(k) == new.start)
         out = [('miss.none-found', forall(0, n, lambda k: Implies(miss_f, eq(F(k), -1)))),
                ('miss.frame', Implies(miss_f, And(same(new.start, me.start), same(new.end, me.end), same(new.match, me.match))))]
         if is_sym(miss_f) or not miss_f:
